@@ -926,6 +926,25 @@ fn gen_two_class(r: &mut Xo, n: usize, p: usize) -> (Vec<Vec<f64>>, Vec<f64>, St
         }
         kind.push_str("+constant-column");
     }
+    if p > 1 && n >= 3 && r.chance(0.04) {
+        // one row far away and exactly orthogonal to all others (BIG * e_j, the others have 0 in column j): under
+        // a linear / polynomial kernel its coefficient is tiny (~1 / BIG^2) while its kernel with itself is huge,
+        // so its term in the expansion is of order one
+        let col = r.below(p as u64) as usize;
+        let at = r.below(n as u64) as usize;
+        let big = *r.pick(&[3.0e3, 1.0e5, 1.0e6, 1.0e9]);
+        for (i, row) in x.iter_mut().enumerate() {
+            if i == at {
+                for v in row.iter_mut() {
+                    *v = 0.0;
+                }
+                row[col] = big;
+            } else {
+                row[col] = 0.0;
+            }
+        }
+        kind.push_str("+far-orthogonal-row");
+    }
     if r.chance(0.03) {
         // perfectly ambiguous input: every row identical (decision values are exactly 0 by symmetry)
         let first = x[0].clone();
@@ -1190,6 +1209,16 @@ fn gen_case(batch: &str, index: u64, seed: u64) -> Case {
             let n = if pr.chance(0.4) { pr.usize_in(4, 12) } else { pr.usize_in(4, 80) };
             let p = pr.usize_in(1, 5);
             let (mut x, y, mut dkind) = gen_two_class(&mut r, n, p);
+            if f32m {
+                // keep cubes of squared norms inside single precision (a far row of 1e9 under a cubic kernel is inf)
+                for row in x.iter_mut() {
+                    for v in row.iter_mut() {
+                        if v.abs() > 3.0e3 {
+                            *v = 3.0e3 * v.signum();
+                        }
+                    }
+                }
+            }
             let kernel = gen_kernel(&mut pr, false, false);
             // translation-invariant kernel: the data may sit far from the origin (years, prices) without
             // changing the optimisation problem — the model must still equal its closed-form expansion
